@@ -17,7 +17,7 @@ def _e(**kw):
 
 def x_obligations(tier):
     o = []
-    T = 170 if tier == "quick" else 1500
+    T = 170 if tier == "quick" else 600
     parts = PARTS_QUICK if tier == "quick" else PARTS_THOROUGH
 
     def per_part(family, module, func, only=None, extra=None, shrink=0):
@@ -32,7 +32,7 @@ def x_obligations(tier):
     q = tier == "quick"
     per_part("C01-oracle", "xhair.obl.c01", "oracle", only=None if not q else [0, 2, 5, 7])
     per_part("C01-total", "xhair.obl.c01", "total", only=[0] if q else [0, 1, 5], shrink=1)
-    for ti in ([1, 14, 16] if q else range(18)):
+    for ti in ([1, 14, 16] if q else range(0, 18, 2)):
         o.append(Obl(f"C20-C01-uri[miniB,t={ti}]", "xhair.obl.c01", "uri", env=_e(VF_N=3, VF_TI=ti, VF_PRE="m/l/"), timeout=T, family="C20-C01-uri", bound="forced type, 'm/l/'+t"))
     per_part("C02-canonical", "xhair.obl.c02", "canonical", only=[1, 3, 6] if q else None)
     per_part("C02-uri", "xhair.obl.c02", "via_uri", only=[2, 5] if q else None)
@@ -46,7 +46,7 @@ def x_obligations(tier):
     keys = KEYS_B.split(",")
     for bi, base in enumerate(bases):
         for ki, k in enumerate(keys):
-            if q and (bi + 2 * ki) % 7:
+            if (q and (bi + 2 * ki) % 7) or (not q and (bi + ki) % 2):
                 continue
             o.append(Obl(f"C20-C04-apply1[miniB,{base},{k}]", "xhair.obl.c04", "apply1", env=_e(VF_BASE=base, VF_KI=ki, VF_N=2, VF_KEYS=KEYS_B, VF_ENTRY="string" if (bi + ki) % 2 else "get_with"), timeout=T,
                          family="C20-C04-apply", bound=f"miniB: base {base}, key {k}, every value of 1..2 characters"))
